@@ -334,7 +334,7 @@ Step ==
                       ELSE IF e.kind = "post" THEN [s0 EXCEPT !.dataOut = e.rid] ELSE s0
                 partner == IF ~overlap THEN 0 ELSE IF e.kind = "poll" THEN s0.pollOut ELSE s0.dataOut
             IN /\ Rq' = Put(Rq, e.rid, [kind |-> e.kind, sid |-> sid, nresp |-> 0, aborted |-> FALSE, returned |-> FALSE, overlap |-> overlap, partner |-> partner,
-                                         toClosed |-> live /\ s0.closed, inCloseWindow |-> live /\ s0.parked > 0, duringRW |-> live /\ s0.parkedRW > 0, msgs |-> IF live /\ e.kind = "post" THEN s0.lastPost ELSE <<>>, status |-> 0, t |-> t])
+                                         toClosed |-> live /\ s0.closed, inCloseWindow |-> live /\ s0.parked > 0, duringRW |-> live /\ s0.parkedRW > 0, msgs |-> IF live /\ e.kind = "post" THEN s0.lastPost ELSE <<>>, status |-> 0, t |-> t, rt |-> Off])
                /\ S' = IF live THEN Put(SS, sid, ns) ELSE SS
                /\ viol' = viol \o tv /\ UNCHANGED <<cfg, Cn>>
        [] e.e = "cli.post" /\ known ->
@@ -352,14 +352,14 @@ Step ==
             IN /\ S' = Upd(ns) /\ viol' = viol \o tv /\ UNCHANGED <<cfg, Rq, Cn>>
        [] e.e = "cli.resp" ->
             LET rq == IF Has(Rq, e.rid) THEN Rq[e.rid] ELSE [kind |-> e.kind, sid |-> "", nresp |-> 0, aborted |-> FALSE, returned |-> FALSE,
-                                                              overlap |-> FALSE, partner |-> 0, toClosed |-> FALSE, inCloseWindow |-> FALSE, duringRW |-> FALSE, msgs |-> <<>>, status |-> 0, t |-> t]
+                                                              overlap |-> FALSE, partner |-> 0, toClosed |-> FALSE, inCloseWindow |-> FALSE, duringRW |-> FALSE, msgs |-> <<>>, status |-> 0, t |-> t, rt |-> Off]
                 sid == rq.sid
                 live == sid # "" /\ Has(SS, sid)
                 s0 == IF live THEN SS[sid] ELSE s
                 rc == IF live /\ e.status = 200 /\ rq.kind = "poll" THEN Receive(s0, sid, e.pk, <<>>) ELSE [s |-> s0, v |-> <<>>]
                 s2 == IF rq.kind = "poll" /\ rc.s.pollOut = e.rid THEN [rc.s EXCEPT !.pollOut = 0, !.noopDue = Off]
                       ELSE IF rq.kind = "post" /\ rc.s.dataOut = e.rid THEN [rc.s EXCEPT !.dataOut = 0] ELSE rc.s
-            IN /\ Rq' = Put(Rq, e.rid, [rq EXCEPT !.nresp = rq.nresp + 1, !.status = e.status])
+            IN /\ Rq' = Put(Rq, e.rid, [rq EXCEPT !.nresp = rq.nresp + 1, !.status = e.status, !.rt = t])
                /\ S' = IF live THEN Put(SS, sid, s2) ELSE SS
                /\ viol' = viol \o tv \o rc.v
                     \o (IF rq.nresp >= 1 THEN <<V("C11", "second_response_to_one_request", sid, e.rid)>> ELSE <<>>)
@@ -368,6 +368,10 @@ Step ==
                     \* (a request may be overtaken between the router and the transport), so the breach is that NEITHER is
                     \o (IF e.status # 400 /\ \E x \in DOMAIN Rq : x # e.rid /\ (rq.partner = x \/ Rq[x].partner = e.rid) /\ Rq[x].kind = rq.kind
                                                                 /\ Rq[x].status \notin {0, 400}
+                                                                \* (.. and the other was still unanswered when this one may have reached the transport: a
+                                                                \*  request issued at the very instant its partner is answered may have been overtaken by
+                                                                \*  that answer on its way - only a partner answered LATER was certainly still pending)
+                                                                /\ Rq[x].rt > rq.t
                                                                 \* (a request issued while a response of the session was held inside its write: the server
                                                                 \*  had done with that request already, only the harness made the two overlap)
                                                                 /\ ~rq.duringRW /\ ~Rq[x].duringRW
